@@ -165,6 +165,18 @@ func main() {
 	doHist(&chaincase.Hist{Name: "insane", Blocks: []chaincase.Blk{blk(1, 0, V), blk(2, 1, NP), blk(3, 2, V), blk(4, 1, BR), blk(5, 1, V)},
 		Order: []int{1, 2, 3, 4, 5, 2}})
 
+	// ---- corpus (oracle only, outside the model): a second "genesis" block
+	// (empty previous hash, height 0) delivered to a running chain used to
+	// dereference a nil parent in connectBestChain (fixed: ddcbbcb5)
+	if p, et, changed, err := chaincase.SecondGenesis(); err != nil {
+		st.Fail("C12:harness", "second-genesis case could not be executed: "+err.Error(), nil)
+	} else {
+		st.Count("second-genesis", true, "second-genesis")
+		if p || et == "" || changed {
+			st.Fail("C12:second-genesis", fmt.Sprintf("a block with an empty previous hash: panicked=%v err=%q chainChanged=%v (expected: rejected with an error, chain unchanged)", p, et, changed), "second-genesis")
+		}
+	}
+
 	// ---- generated
 	n := run.N(45, 1500)
 	for i := 0; i < n; i++ {
